@@ -192,7 +192,13 @@ def job_whole(stack, nondim, solve_for=('tidal', 'loading'), malformed=None):
     cNAN, rNAN = Q.sym('cmplx_NAN'), Q.sym('NAN')
 
     def allocate_mem(n, name=''):
-        n = int(Q.of(n).const()) if not isinstance(n, int) else n
+        v_ = Fr(n) if isinstance(n, int) else Q.of(n).const()
+        if v_.denominator != 1 or v_ % pyx2py.SIZEOF_UNIT != 0 or v_ < 0:
+            e_ = pyx2py.ExtentError('allocate_mem(%s): the requested size %s is not (element count) * sizeof(element type)' % (name, v_ / pyx2py.SIZEOF_UNIT))
+            e_.src_declared = True
+            e_.alloc_fault = True           # raised by the allocation stub on behalf of the source statement that computed the size
+            raise e_
+        n = int(v_ // pyx2py.SIZEOF_UNIT)
         a = CArr((n,), str(name).split(' ')[0])
         a.src_declared = True            # the size is the source's own allocation expression
         rec['alloc'].append(a)
@@ -396,7 +402,7 @@ def job_whole(stack, nondim, solve_for=('tidal', 'loading'), malformed=None):
                 conds.append(z3.BoolVal(st_.extent == nsl[li] * ny and all(v is not None for v in st_.data)))
                 for sl in range(nsl[li]):
                     for y in range(ny):
-                        got = st_.data[ny * sl + y]
+                        got = st_.data[ny * sl + y] if ny * sl + y < len(st_.data) else None      # a too-small buffer is reported by the extent obligations, not by an IndexError here
                         if got is not None:
                             conds.append(same(got, Q.of(so_.data[2 * ny * sl + 2 * y]) + Q(0, 1) * Q.of(so_.data[2 * ny * sl + 2 * y + 1])))
             ob('layer %d: the storage of every solution is written completely, element [slice, y] = complex(solver[2 num_ys slice + 2y], solver[... + 1]) of THAT solve' % li, conds, 'storage')
@@ -407,7 +413,8 @@ def job_whole(stack, nondim, solve_for=('tidal', 'loading'), malformed=None):
                      same(c['ig'], (gravity.data[starts[li]] + gravity.data[starts[li] - 1]) / 2)]
             for j in range(nsols[li - 1]):
                 for y in range(nyb):
-                    conds.append(same(c['upp'][j * nyb + y], stor[li - 1][j].data[nyb * (nsl[li - 1] - 1) + y]))
+                    i_ = nyb * (nsl[li - 1] - 1) + y
+                    conds.append(same(c['upp'][j * nyb + y], stor[li - 1][j].data[i_]) if i_ < len(stor[li - 1][j].data) else z3.BoolVal(False))
             ob('interface below layer %d: cf_solve_upper_y_at_interface receives the top-slice values of every solution of the layer below, both layer kinds, and the mean of the two interface gravities' % li,
                conds, 'interface-forward')
         c0 = rec['start'][0]
